@@ -41,7 +41,13 @@ class _Sub(ast.NodeTransformer):
 
     def visit_Name(self, node: ast.Name):
         if isinstance(node.ctx, ast.Load) and node.id in self.env and not any(node.id in s for s in self.shadow):
-            return copy.deepcopy(self.env[node.id])
+            rep_ = self.env[node.id]
+            if self.shadow:
+                # no capture: the replacement's free names must not be bound by an enclosing comprehension / lambda
+                free = {x.id for x in ast.walk(rep_) if isinstance(x, ast.Name) and isinstance(x.ctx, ast.Load)}
+                if any(free & s for s in self.shadow):
+                    return node
+            return copy.deepcopy(rep_)
         return node
 
     def _comp(self, node):
